@@ -17,10 +17,13 @@ macro "cell_ne" : tactic =>
   `(tactic| ((try simp only [cNext, cBuf, cLack, cDup, cRtt, cDev, cRto, cCC, cCwnd, cPutAt, cSent, cTmIn, cTmStopped,
       cTmExpire, cTmTimeout, cTmStart, cTmProc, ne_eq]); omega))
 
+@[simp] theorem spawnSt_shared (s : KS) (st : St) : (spawnSt s st).shared = s.shared := rfl
+@[simp] theorem emit_shared (s : KS) (o : Obs ℚ) : (s.emit o).shared = s.shared := rfl
+
 /-- drop the writes to other cells from a `lookup` (the cell indices are unfolded to numbers) -/
 macro "strip" : tactic =>
   `(tactic| ((try simp only [cNext, cBuf, cLack, cDup, cRtt, cDev, cRto, cCC, cCwnd, cPutAt, cSent, cTmIn, cTmStopped,
-      cTmExpire, cTmTimeout, cTmStart, cTmProc]); simp (disch := omega) only [lookup_setCell_ne, lookup_setCell_same]))
+      cTmExpire, cTmTimeout, cTmStart, cTmProc]); simp (disch := omega) only [lookup_setCell_ne, lookup_setCell_same, spawnSt_shared, emit_shared]))
 
 /-! ## association lists -/
 
